@@ -1,6 +1,6 @@
 (* Comparison helpers for the generated correspondence cases of C03 / C16 (no proofs). *)
 From Coq Require Import String Ascii List Bool Arith.
-From LV Require Import Base.Prelude Shape.Chain Shape.Spec Shape.Transform Shape.Ebnf.
+From LV Require Import Base.Prelude Forest.Sppf Forest.Prio Shape.Chain Shape.Spec Shape.Transform Shape.Ebnf Shape.EarleyLeg Shape.Cnf.
 Import ListNotations.
 
 Fixpoint stree_eqb (a b : stree) : bool :=
@@ -108,9 +108,72 @@ Definition frs_check (c : frs_case) : bool :=
   wf_ebnf e && Nat.eqb (frs ka e) n && Nat.eqb n m && Nat.eqb (longest ka e) n.
 
 (* all C03 case kinds in one list (fewer generated files) *)
-Inductive c03_case := CaseCB (c : cb_case) | CaseE2E (c : e2e_case) | CaseFRS (c : frs_case).
+(* Earley / resolve leg: rule table of the compiled grammar (rule ids = indices), maybe_placeholders,
+   whether a ForestSumVisitor ran, the forest lark built and the tree Lark.parse returned *)
+Definition earley_case := (list rrec * bool * bool * Sppf.sym * stree)%type.
+
+Definition earley_check (c : earley_case) : bool :=
+  let '(rules, mp, summed, s, t) := c in
+  wfb s
+  && match (if summed then earley_resolve rules mp s else earley_resolve_none rules mp s) with
+     | Some [t'] => stree_eqb t t'
+     | _ => false
+     end
+  (* ... and it is the shape of the derivation the resolve-mode walk selects *)
+  && match (if summed then resolve s else resolve_none s) with
+     | [d] => wf_dtree mp (to_dtree rules d)
+              && match shape mp (to_dtree rules d) with Some t' => stree_eqb t t' | None => false end
+     | _ => false
+     end.
+
+(* CYK leg.  The CNF grammar cyk.to_cnf built (as a set) against the model *)
+Definition cset_incl (a b : list crule) : bool := forallb (fun x => existsb (crule_eqb x) b) a.
+Definition cnfg_case := (list rrec * list crule)%type.
+Definition cnfg_check (c : cnfg_case) : bool :=
+  match to_cnf 400 (fst c) with
+  | Ok g => cset_incl g (snd c) && cset_incl (snd c) g
+  | _ => false
+  end.
+
+Fixpoint ctree_eqb (a b : ctree) : bool :=
+  match a, b with
+  | CLeaf t1 v1, CLeaf t2 v2 => String.eqb t1 t2 && String.eqb v1 v2
+  | CNode r1 c1, CNode r2 c2 =>
+      crule_eqb r1 r2 &&
+      (fix go (x y : list ctree) : bool :=
+         match x, y with [], [] => true | a' :: x', b' :: y' => ctree_eqb a' b' && go x' y' | _, _ => false end) c1 c2
+  | _, _ => false
+  end.
+
+Fixpoint otree_eqb (a b : otree) : bool :=
+  match a, b with
+  | OLeaf t1 v1, OLeaf t2 v2 => String.eqb t1 t2 && String.eqb v1 v2
+  | ONode r1 c1, ONode r2 c2 =>
+      Nat.eqb r1 r2 &&
+      (fix go (x y : list otree) : bool :=
+         match x, y with [], [] => true | a' :: x', b' :: y' => otree_eqb a' b' && go x' y' | _, _ => false end) c1 c2
+  | _, _ => false
+  end.
+
+(* one CYK parse: rule table, maybe_placeholders, the CNF parse tree handed to revert_cnf, the tree
+   revert_cnf returned (rule indices through the aliases), the tree Lark.parse returned *)
+Definition cyk_case := (list rrec * bool * ctree * otree * stree)%type.
+
+(* 0 = all observations reproduced *)
+Definition cyk_diag (c : cyk_case) : nat :=
+  let '(rules, mp, cn, o, t) := c in
+  if negb (wf_otree rules o) then 1
+  else if negb (match to_otree (revert cn) with Some o' => otree_eqb o o' | None => false end) then 2
+  else if negb (ctree_eqb (cnf_of rules o) cn) then 3
+  else if negb (match shape mp (o_dtree rules o) with Some t' => stree_eqb t t' | None => false end) then 4
+  else 0.
+Definition cyk_check (c : cyk_case) : bool := Nat.eqb (cyk_diag c) 0.
+
+Inductive c03_case := CaseCB (c : cb_case) | CaseE2E (c : e2e_case) | CaseFRS (c : frs_case)
+                    | CaseEARLEY (c : earley_case) | CaseCNFG (c : cnfg_case) | CaseCYK (c : cyk_case).
 Definition c03_check (c : c03_case) : bool :=
-  match c with CaseCB x => cb_check x | CaseE2E x => e2e_check x | CaseFRS x => frs_check x end.
+  match c with CaseCB x => cb_check x | CaseE2E x => e2e_check x | CaseFRS x => frs_check x
+             | CaseEARLEY x => earley_check x | CaseCNFG x => cnfg_check x | CaseCYK x => cyk_check x end.
 
 (* C16 ------------------------------------------------------------------------------------ *)
 (* the symbolic transformer: callbacks on the listed rule names / terminal types build tagged nodes *)
@@ -134,15 +197,15 @@ Definition tr_check (c : tr_case) : bool :=
   && ok (transform_ip T vt t) lip && ok (Some (transform_ipr T vt t)) lpost.
 
 (* embedded: derivation, the value lark returned with transformer=T, the tree without *)
-Definition emb_case := (list string * list string * bool * dtree * value * stree)%type.
+Definition emb_case := (list string * list string * bool * bool * dtree * value * stree)%type.
 
 Definition emb_check (c : emb_case) : bool :=
-  let '(rules, toks, mp, d, v, t) := c in
+  let '(rules, toks, vt, mp, d, v, t) := c in
   let T := sym_T rules toks in
   wf_dtree mp d
-  && match embedded T mp d with Some v' => value_eqb v v' | None => false end
-  && match embedded_run T mp (postorder d) with Some [v'] => value_eqb v v' | _ => false end
-  && match shape mp d with Some t' => stree_eqb t t' && value_eqb v (tr T true t') | None => false end.
+  && match embedded T vt mp d with Some v' => value_eqb v v' | None => false end
+  && match embedded_run T vt mp (postorder d) with Some [v'] => value_eqb v v' | _ => false end
+  && match shape mp d with Some t' => stree_eqb t t' && value_eqb v (tr T vt t') | None => false end.
 
 Inductive c16_case := CaseTR (c : tr_case) | CaseEMB (c : emb_case).
 Definition c16_check (c : c16_case) : bool :=
